@@ -129,6 +129,8 @@ DynReader::DynReader(const ReaderSpec& spec, const uint8_t* data, size_t n) {
     }
     if (spec.bounded) impl_.reset(new RBounded<FS>(lim, tmpfile_, std::ios::in | std::ios::binary));
     else impl_.reset(new RDirect<FS>(tmpfile_, std::ios::in | std::ios::binary));
+  } else if (k == "sparse") {
+    impl_.reset(new RSparse(heap_, n));
   } else if (k == "fdburst") {
     feeder_.reset(new BurstFeeder(heap_, n, static_cast<unsigned>(n * 31 + 7)));
     int fd = feeder_->read_fd();
